@@ -40,10 +40,13 @@ _FNS = ['things:f2', 'things:h1', 'things:Base', 'things:Other', 'things:LeafCls
 
 
 @st.composite
-def strategy_(draw, tier):
-  kinds = ['B', 'B', 'B', 'B', 'list', 'list', 'list', 'dict', 'dict', 'nt', 'tuple',
-             # further node kinds of the shared generator that this check's oracle handles (each once)
-             'TV', 'mdict', 'set', 'fset', 'ltuple', 'ntuple', 'Bpos', 'Bmut', 'Bmut1', 'Bmutnest', 'Bpo', 'Bpo3', 'Bdc', 'Bempty', 'AFP', 'odict', 'dcinst', 'Bclash', 'ddict', 'kdict']
+def strategy_(draw, tier, extra_kinds=True):
+  kinds = ['B', 'B', 'B', 'B', 'list', 'list', 'list', 'dict', 'dict', 'nt', 'tuple']
+  if extra_kinds:
+    # further node kinds of the shared generator that this check's oracle handles (each once);
+    # C13 re-uses this strategy without them (the fiddler generator rejects values it cannot print)
+    kinds += ['TV', 'mdict', 'set', 'fset', 'ltuple', 'ntuple', 'Bpos', 'Bmut', 'Bmut1', 'Bmutnest', 'Bpo', 'Bpo3',
+              'Bdc', 'Bempty', 'AFP', 'odict', 'dcinst', 'Bclash', 'ddict', 'kdict']
   if draw(st.floats(0, 1)) < 0.06:
     kinds = kinds + ['Bpos', 'Bpos']
   old = draw(dags.dag(max_nodes=9, min_nodes=2, kinds=kinds, fns=_FNS, root_kinds=['B'],
@@ -87,8 +90,8 @@ def strategy_(draw, tier):
   return case
 
 
-def strategy(tier):
-  return strategy_(tier)
+def strategy(tier, extra_kinds=True):
+  return strategy_(tier, extra_kinds)
 
 
 def _buildables(root):
